@@ -39,7 +39,7 @@ pub fn sub_call_or_assignment_p() -> impl Parser<StringView, Output = Statement,
                         }
                         Some((bare_name, _)) => csv_expressions_first_guarded()
                             .or_default()
-                            .map(move |args| Statement::sub_call(bare_name.clone(), args))
+                            .map(move |args| call_or_sub_call(bare_name.clone(), args))
                             .boxed(),
                         // e.g. `A(1).B` without an equal sign: not the name of a sub
                         None => err_supplier(|| ParserError::expected("=").to_fatal()).boxed(),
@@ -49,6 +49,28 @@ pub fn sub_call_or_assignment_p() -> impl Parser<StringView, Output = Statement,
             .flatten(),
         KeepRightCombiner,
     )
+}
+
+/// `CALL Name(args)` and `CALL Name` are the long spelling of `Name args` and `Name`.
+/// (`CALL ABSOLUTE(...)` stays the built-in sub `CALL`.)
+fn call_or_sub_call(bare_name: BareName, args: Expressions) -> Statement {
+    if bare_name == BareName::from("CALL") && args.len() == 1 {
+        let absolute = BareName::from("ABSOLUTE");
+        match &args[0].element {
+            Expression::FunctionCall(sub_name, sub_args)
+                if sub_name.is_bare() && *sub_name.as_bare_name() != absolute =>
+            {
+                return Statement::sub_call(sub_name.as_bare_name().clone(), sub_args.clone());
+            }
+            Expression::Variable(sub_name, _)
+                if sub_name.is_bare() && *sub_name.as_bare_name() != absolute =>
+            {
+                return Statement::sub_call(sub_name.as_bare_name().clone(), vec![]);
+            }
+            _ => {}
+        }
+    }
+    Statement::sub_call(bare_name, args)
 }
 
 fn name_and_opt_eq_sign()
